@@ -182,7 +182,7 @@ class FG:
 
 def run(tier, seed):
     ctx = core.Ctx(PID, tier, seed, LEVEL)
-    per_cell = 30 if tier == "quick" else core.share(500)
+    per_cell = 30 if tier == "quick" else core.share(4000)
     legs = ["dev"] if tier == "quick" else ["dev", "release"]
     ctx.rule = ("fault enumeration: %d fault kinds x %d calling contexts, %d programs per cell; the faulting operation sits at a random position and depth of an otherwise "
                 "valid program, between effects (set!, vector-set!, define, ticks) and is followed by forms reading them back and by ordinary forms. "
